@@ -128,5 +128,10 @@
 //
 //	word     = bareWord
 //	         | double-quoted Go string
-//	bareWord = [^-*"():@,][^ ():@,]*
+//	bareWord = [^-*"():@,\s][^\s():@,]*
+//
+// Here \s stands for any Unicode white space character (see
+// unicode.IsSpace), not only for the blank: white space of any kind
+// separates words, so a word that contains some must be written as a
+// double-quoted Go string.
 package syntax
